@@ -30,9 +30,9 @@ DISTINCT_KEY = "cases"
 NSHARDS = {"quick": 8, "thorough": 16}
 TIMEOUT = {"quick": 1500, "thorough": 7200}
 FLOORS = {"quick": {"purity_evals": 3000, "reuse_comparisons": 250, "thread_results_compared": 150, "thread_switches_in_mappyfile": 300,
-                    "quiescent_state_checks": 100},
+                    "quiescent_state_checks": 100, "frontend_history_steps": 400},
           "thorough": {"purity_evals": 25000, "reuse_comparisons": 15000, "thread_results_compared": 3000,
-                       "thread_switches_in_mappyfile": 20000, "quiescent_state_checks": 5000}}
+                       "thread_switches_in_mappyfile": 20000, "quiescent_state_checks": 5000, "frontend_history_steps": 20000}}
 ASSUMPTIONS = ["fingerprints are a canonical, type-tagged, order-preserving serialisation (mf/core.py)",
                "'any schedule' is restated as: the interleavings CPython's GIL actually produced under yield injection (counted)"]
 DOMAIN = ["dumps with separate_complex_types and validate with add_comments are documented to modify their argument and are excluded"]
@@ -261,7 +261,9 @@ def reuse_workload(ctx):
     for sidx in range(nseq):
         comments = r.random() < 0.5
         position = r.random() < 0.5
-        p = Parser(expand_includes=False, include_comments=comments)
+        # half of the sequences with the include pre-pass on, as the public functions run it (corpus files holding directives excluded)
+        expand = sidx % 2 == 0
+        p = Parser(expand_includes=expand, include_comments=comments)
         m = MapfileToDict(include_position=position, include_comments=comments)
         pp_opts = dict(indent=r.choice([0, 2, 4]), quote=r.choice(['"', "'"]), end_comment=r.random() < 0.3)
         pp = PrettyPrinter(**pp_opts)
@@ -270,6 +272,8 @@ def reuse_workload(ctx):
         mix = set()
         for k in range(length):
             text = r.choice(bad) if r.random() < 0.2 else r.choice(pool)
+            if expand and engine._DIRECTIVE.search(text) and text != "INCLUDE":
+                continue
             version = r.choice([None, None, 5.0, 7.6, 8.0, 8.2])
             case = {"part": "reuse", "sequence": sidx, "position_in_sequence": k, "comments": comments, "include_position": position,
                     "text": text[:3000], "version": version}
@@ -297,7 +301,7 @@ def reuse_workload(ctx):
 
             got = pipeline(p, m, pp, v)
             if k % 2 == 0 or "parse_exc" in got:
-                want = pipeline(Parser(expand_includes=False, include_comments=comments),
+                want = pipeline(Parser(expand_includes=expand, include_comments=comments),
                                 MapfileToDict(include_position=position, include_comments=comments), PrettyPrinter(**pp_opts), Validator())
                 res.count("reuse_comparisons")
                 res.seen("cases", h("reuse", sidx, k, ctx.shard))
@@ -317,6 +321,87 @@ def reuse_workload(ctx):
                     res.violation("parser-collects-comments-although-off", case, len(p._comments), 0)
         res.seen("sequence-mixes", f"comments={comments} position={position} {sorted(mix)}")
         res.count("reuse_sequences")
+
+
+def frontend_history_workload(ctx):
+    """One Parser (includes expanded, as the public functions do) driven through files, named and anonymous streams and plain strings
+    in random order: every step must give what a fresh Parser gives for that step alone (relative INCLUDEs resolve against the file
+    of THIS call, or the working directory for plain strings - never against anything an earlier call was given)."""
+    import io
+    import shutil
+    import tempfile
+
+    from mappyfile.parser import Parser
+    from mappyfile.transformer import MapfileToDict
+
+    res = ctx.res
+    r = ctx.rng("frontends")
+    base = tempfile.mkdtemp(prefix="mf-c12f-")
+    old = os.getcwd()
+    try:
+        dirs = {}
+        for name in ("cwd", "A", "B/deeper"):
+            d = os.path.join(base, name)
+            os.makedirs(os.path.join(d, "inc"), exist_ok=True)
+            dirs[name] = d
+            for rel in ("shared.inc", "inc/part.map"):
+                with open(os.path.join(d, rel), "w", encoding="utf-8") as f:
+                    f.write(f'NAME "from-{name}-{rel}"\n')
+        root_text = 'MAP\nINCLUDE "shared.inc"\n  include inc/part.map # trailing\nSTATUS ON\nEND # map\n'
+        plain_text = 'MAP\nNAME "no includes" # c\nLAYER NAME "l" END\nEND\n'
+        for name in ("A", "B/deeper"):
+            with open(os.path.join(dirs[name], "root.map"), "w", encoding="utf-8") as f:
+                f.write(root_text)
+        os.chdir(dirs["cwd"])
+        kinds = ["file:A", "file:B/deeper", "text", "stream-named:A", "stream-named:B/deeper", "stream-anon", "text-fn:A", "text-fn:B/deeper",
+                 "missing-file", "plain", "bad-text"]
+
+        def step(pz, kind):
+            m = MapfileToDict(include_comments=pz.include_comments)
+            try:
+                k, _, where = kind.partition(":")
+                if k == "file":
+                    tree = pz.parse_file(os.path.join(dirs[where], "root.map"))
+                elif k == "text":
+                    tree = pz.parse(root_text)
+                elif k == "stream-named":
+                    with open(os.path.join(dirs[where], "root.map"), encoding="utf-8") as fp:
+                        tree = pz.load(fp)
+                elif k == "stream-anon":
+                    tree = pz.load(io.StringIO(root_text))
+                elif k == "text-fn":
+                    tree = pz.parse(root_text, fn=os.path.join(dirs[where], "root.map"))
+                elif k == "missing-file":
+                    tree = pz.parse_file(os.path.join(dirs["A"], "nope.map"))
+                elif k == "plain":
+                    tree = pz.parse(plain_text)
+                else:
+                    tree = pz.parse('MAP NAME "unterminated')
+                return ("ok", core.fp(m.transform(tree)))
+            except Exception as ex:
+                return ("exc", type(ex).__name__)
+
+        fresh = {}  # what a fresh Parser gives for one step alone (the files never change)
+        for sidx in range(ctx.n(64, 1600)):
+            comments = sidx % 2 == 0
+            p = Parser(include_comments=comments)
+            hist = []
+            for k in range(r.randint(4, 12)):
+                kind = r.choice(kinds)
+                hist.append(kind)
+                got = step(p, kind)
+                if (kind, comments) not in fresh:
+                    fresh[(kind, comments)] = step(Parser(include_comments=comments), kind)
+                want = fresh[(kind, comments)]
+                res.count("frontend_history_steps")
+                res.seen("frontend-step-pairs", f"{hist[-2] if len(hist) > 1 else '-'} -> {kind}")
+                if got != want:
+                    res.violation("reused-parser-depends-on-earlier-front-end-call", {"part": "frontend-history", "history": list(hist),
+                                  "comments": comments}, str(got)[:300], str(want)[:300])
+                    break
+    finally:
+        os.chdir(old)
+        shutil.rmtree(base, ignore_errors=True)
 
 
 # ------------------------------------------------------------------------------------------------
@@ -472,6 +557,7 @@ def run(ctx):
         if not ctx.quick or ctx.shard % 4 == 0:
             thread_workload(ctx)
         reuse_workload(ctx)
+        frontend_history_workload(ctx)
         purity_workload(ctx, tmp)
         if not ctx.quick and ctx.shard == 0:
             from .. import suite
